@@ -80,6 +80,29 @@ def curated():
     #    set and with an earlier origin (found by the thorough tier of C02: the translation of the empty A was dropped)
     c.append(entry("nullanode", [R(S, [], 1, 1, []), R(A, [S, S], 2, 2, [2, 1]), R(S, [1, A], 1, 1, [1, 2])], maxlen=4, alphabet=[1]))
     c.append(entry("nullanode2", [R(S, [], 1, 1, []), R(A, [S, S], 1, 1, [1, 2]), R(S, [A, 1], 0, 0, [1])], maxlen=4, alphabet=[1]))
+    # 18 items whose tails are shared between alternatives chosen by the first token (a seeded change of the cache check that
+    #    stopped at the first start situation with distance <= 1 lost the `q C' reading of the second item):
+    #    L : L I | I ; I : p B | q B | q C ; B : A z ; C : A z ; A : x y | x E ; E : D z ; D : y      p=1 q=2 x=3 y=4 z=5
+    for kind in ("left", "right"):
+        lst = [R(T, [T, S], 1, 1, [1, 2]), R(T, [S], 0, 0, [1])] if kind == "left" else [R(T, [S, T], 1, 1, [1, 2]), R(T, [S], 0, 0, [1])]
+        c.append(entry("ctxtails-" + kind, lst + [R(S, [1, B], 2, 1, [2]), R(S, [2, B], 3, 1, [2]), R(S, [2, C], 4, 1, [2]), R(B, [A, 5], 5, 1, [1]), R(C, [A, 5], 6, 1, [1]),
+                                                 R(A, [3, 4], 7, 1, []), R(A, [3, E], 8, 1, [2]), R(E, [D, 5], 9, 1, [1]), R(D, [4], 10, 1, [])],
+                       maxlen=0, alphabet=[1], inputs=[[1, 3, 4, 5, 2, 3, 4, 5], [2, 3, 4, 5, 1, 3, 4, 5], [2, 3, 4, 5, 5, 1, 3, 4, 5, 5], [1, 3, 4, 5, 2, 3, 4, 5, 5],
+                                                       [2, 3, 4, 5, 2, 3, 4, 5, 2, 3, 4, 5], [1, 3, 4, 5, 5, 2, 3, 4, 5, 1, 3, 4, 5]]))
+    # 19 an alternative list shared between an abstract node and its copies for other split points, under the cost flag
+    #    (reported by a sub-agent while seeding C04): S : A B C ; A : a | a a ; B : a | a a ; C : c (cost 5) | c (cost 3)
+    c.append(entry("sharedalt", [R(S, [A, B, C], 1, 0, [1, 2, 3]), R(A, [1], 2, 1, []), R(A, [1, 1], 3, 1, []), R(B, [1], 4, 1, []), R(B, [1, 1], 5, 1, []),
+                                 R(C, [3], 6, 5, []), R(C, [3], 7, 3, [])], maxlen=5, alphabet=[1, 3], inputs=[[1, 1, 1, 3], [1, 1, 1, 1, 3]]))
+    c.append(entry("sharedalt2", [R(S, [A, B, C], 1, 0, [1, 2, 3]), R(A, [1], 2, 1, []), R(A, [1, 1], 3, 2, []), R(B, [1], 4, 1, []), R(B, [1, 1], 5, 2, []),
+                                  R(C, [D], 6, 5, [1]), R(C, [D], 7, 3, [1]), R(D, [3], 8, 1, []), R(D, [3], 9, 1, [])], maxlen=5, alphabet=[1, 3], inputs=[[1, 1, 1, 3]]))
+    # 20 abstract nodes with three children whose first and last are shared (the single nil node, terminal nodes shared between
+    #    alternatives): yaep_free_tree has to reach the child between them in the second such node
+    #    L : L d | d ; d : q t i ; # decl (0 1 2) ; q : | c # qual ; i : | = # init        t=1 ;=2 c=3 '='=4
+    c.append(entry("decls", [R(T, [T, S], 1, 1, [1, 2]), R(T, [S], 0, 0, [1]), R(S, [A, 1, B, 2], 2, 1, [1, 2, 3]), R(A, []), R(A, [3], 3, 1, [1]), R(B, []), R(B, [4], 4, 1, [1])],
+                   maxlen=4, alphabet=[1, 2, 3, 4], inputs=[[1, 2, 1, 2], [3, 1, 4, 2, 1, 2, 1, 2], [1, 2, 1, 2, 1, 2], [1, 2, 3, 1, 2, 1, 4, 2, 1, 2]]))
+    #    the same with an ambiguous middle (terminal nodes shared between the alternatives)
+    c.append(entry("decls-amb", [R(T, [T, S], 1, 1, [1, 2]), R(T, [S], 0, 0, [1]), R(S, [A, C, B], 2, 1, [1, 2, 3]), R(A, []), R(A, [1], 3, 1, [1]), R(B, []), R(B, [1], 4, 1, [1]),
+                                 R(C, [1], 5, 1, [1]), R(C, [1, 1], 6, 1, [1, 2])], maxlen=4, alphabet=[1]))
     return c
 
 
@@ -185,6 +208,26 @@ def loop_shapes():
     return out
 
 
+def loop_repeats():
+    """The recursive nonterminal occurs several times in its own rule (A : A A | a is no loop: the other occurrence is not
+    nullable; with a nullable A it is), reached through a unit rule or not, with a nullable or non-nullable neighbour."""
+    out = []
+    shapes = {"AA": [A, A], "AAA": [A, A, A], "ABA": [A, B, A], "BAA": [B, A, A], "AAB": [A, A, B], "ADA": [A, D, A]}
+    bdefs = {"eps": [R(B, [])], "eps_or_t": [R(B, []), R(B, [2])], "t": [R(B, [2])]}
+    for sn, shape in shapes.items():
+        for bd, brules in bdefs.items():
+            for abase in ("t", "eps", "paren"):
+                for unit in (0, 1):
+                    for order in (0, 1):
+                        base = {"t": [R(A, [1])], "eps": [R(A, []), R(A, [1])], "paren": [R(A, [1]), R(A, [3, A, 3])]}[abase]
+                        body = [R(A, shape)] + base + (brules if B in shape else []) + ([R(D, [A]), R(D, [])] if D in shape else [])
+                        if order:
+                            body = body[::-1]
+                        start = [R(S, [A])] if unit else [R(S, [A, 1])]
+                        out.append(entry("looprep-%s-%s-%s-%d-%d" % (sn, bd, abase, unit, order), start + body, maxlen=2, alphabet=[1, 2, 3]))
+    return out
+
+
 def random_grammars(seed, n, nnts=4, nterms=3, maxrules=7, maxrhs=3, err=False, trans=False, maxlen=3, empty_bias=0.0):
     rnd = random.Random(seed)
     out = []
@@ -243,4 +286,164 @@ def long_inputs():
     out.append(("stmts", cur["stmts"], [[1, 2] * 200, ([1, 2] * 7 + [1, 1, 2]) * 30, ([1, 2] * 3 + [2, 2, 1]) * 40 + [1, 2]]))
     out.append(("dangling", cur["dangling"], [[1] * 60 + [3] + [2, 3] * 30, [1, 1, 3, 2, 3, 2] * 5 + [3]]))
     out.append(("nestederr", cur["nestederr"], [[1, 3, 3, 4, 2] * 1, [1, 3, 3, 3, 3, 4, 2], [1, 3, 4, 2]]))
+    return out
+
+
+# ----------------------------------------------------------------------------- error recovery corpora (RecTrace.tla)
+def nested_error_family():
+    """Grammars with `error' expected at several nesting levels before the failing position, so that the recovery search
+    has to move its back frontier several times:  N_i : o_i N_{i+1} c_i | o_i error c_i ; innermost : k k ; plus a tail
+    after the outermost level.  Inputs: the sentence with every contiguous segment deleted, and single replacements."""
+    out = []
+    for depth in (2, 3, 4):
+        for tail in (0, 3):
+            for closers in (True, False):
+                opens = [101 + i for i in range(depth)]
+                closes = [121 + i for i in range(depth)] if closers else [None] * depth
+                tails = [141 + j for j in range(tail)]
+                nts = [11 + i for i in range(depth + 1)]
+                rules = []
+                for i in range(depth):
+                    after = ([closes[i]] if closes[i] else []) + (tails if i == 0 else [])
+                    if not after:
+                        after = [160 + i]
+                    rules.append(R(nts[i], [opens[i], nts[i + 1]] + after, 1 + 2 * i, 1, [1]))
+                    rules.append(R(nts[i], [opens[i], 0] + after, 2 + 2 * i, 1, []))
+                rules.append(R(nts[depth], [1, 1], 20, 1, []))
+                # the sentence
+                def sent(i):
+                    if i == depth:
+                        return [1, 1]
+                    after = ([closes[i]] if closes[i] else []) + (tails if i == 0 else [])
+                    if not after:
+                        after = [160 + i]
+                    return [opens[i]] + sent(i + 1) + after
+                s = sent(0)
+                inputs = []
+                for a in range(len(s)):
+                    for b in range(a + 1, min(len(s), a + 5) + 1):
+                        inputs.append(s[:a] + s[b:])
+                for a in range(len(s)):
+                    inputs.append(s[:a] + [1 if s[a] != 1 else opens[-1]] + s[a + 1:])
+                    inputs.append(s[:a] + [1] + s[a:])
+                uniq = []
+                for w in inputs:
+                    if w and w not in uniq:
+                        uniq.append(w)
+                out.append(entry("nesterr-%d-%d-%s" % (depth, tail, "c" if closers else "n"), rules, maxlen=0, inputs=uniq))
+    return out
+
+
+def gen_sentences(rules, rnd, n, maxlen, start=None):
+    """Random sentences of a grammar by random leftmost expansion (generation only; TLC judges)."""
+    by = {}
+    for r in rules:
+        by.setdefault(r["l"], []).append(r["r"])
+    start = start if start is not None else rules[0]["l"]
+    out = []
+    for _ in range(n * 20):
+        if len(out) >= n:
+            break
+        form, steps = [start], 0
+        while any(s in by for s in form) and steps < 60 and len(form) <= maxlen + 6:
+            i = next(k for k, s in enumerate(form) if s in by)
+            alts = by[form[i]]
+            # prefer short alternatives when the form is already long
+            alt = rnd.choice(alts) if len(form) < maxlen else min(alts, key=len)
+            form = form[:i] + list(alt) + form[i + 1:]
+            steps += 1
+        if any(s in by for s in form) or 0 in form or not (1 <= len(form) <= maxlen):
+            continue
+        if form not in out:
+            out.append(form)
+    return out
+
+
+def damaged_inputs(sents, alphabet, rnd, per=4):
+    out = []
+    for s in sents:
+        for _ in range(per):
+            w = list(s)
+            for _k in range(rnd.choice((1, 1, 2))):
+                kind = rnd.randrange(4)
+                pos = rnd.randrange(len(w)) if w else 0
+                if kind == 0 and len(w) > 1:
+                    del w[pos:pos + rnd.choice((1, 1, 2))]
+                elif kind == 1:
+                    w.insert(pos, rnd.choice(alphabet))
+                elif kind == 2 and w:
+                    w[pos] = rnd.choice(alphabet)
+                elif w:
+                    w = w[:pos] + w[pos + 1:] + [w[pos]]
+            if w and w not in out and w not in sents:
+                out.append(w)
+    return out
+
+
+def recovery_corpus(seed, n_random=20):
+    """Entries with inputs of 5-14 tokens most of which contain syntax errors."""
+    rnd = random.Random(seed)
+    cur = {e["id"]: e for e in curated()}
+    out = list(nested_error_family())
+    for gid in ("stmts", "nestederr", "staleplace", "expr", "ctxfrag"):
+        e = dict(cur[gid])
+        sents = gen_sentences(e["rules"], rnd, 8, 12)
+        e["inputs"] = damaged_inputs(sents, e["alphabet"], rnd, 4) + sents[:2]
+        e["maxlen"] = 0
+        e["id"] = "rec-" + gid
+        out.append(e)
+    # blocks of statements, two levels of error rules, lists:  B : { L } | { error } ; L : L s | s ; s : x ; | error ; | B
+    blk = [R(12, [1, 13, 2], 1, 1, [2]), R(12, [1, 0, 2], 2, 1, []), R(13, [13, 14], 3, 1, [1, 2]), R(13, [14], 0, 0, [1]),
+           R(14, [3, 4], 4, 1, []), R(14, [0, 4], 5, 1, []), R(14, [12], 0, 0, [1])]
+    sents = gen_sentences(blk, rnd, 10, 13)
+    out.append(entry("rec-blocks", blk, maxlen=0, alphabet=[1, 2, 3, 4], inputs=damaged_inputs(sents, [1, 2, 3, 4], rnd, 5) + sents[:2]))
+    for g in random_grammars(seed + 77, n_random, nnts=3, nterms=3, maxrules=6, err=True, maxlen=3):
+        sents = gen_sentences(g["rules"], rnd, 5, 9)
+        if not sents:
+            continue
+        g = dict(g)
+        g["inputs"] = damaged_inputs(sents, g["alphabet"], rnd, 3) + sents[:1]
+        g["maxlen"] = 0
+        g["id"] = "rec-" + g["id"]
+        out.append(g)
+    return out
+
+
+def long_random_entries(seed, n):
+    """Random rule sets with many nullable and ambiguous symbols (defined with strict = 0) and inputs of 6-20 tokens:
+    generated sentences, damaged sentences, random strings."""
+    rnd = random.Random(seed + 5)
+    out = []
+    for g in random_grammars(seed + 4000, n, nnts=4, nterms=2, maxrules=9, maxrhs=4, maxlen=0, empty_bias=0.12) + \
+            random_grammars(seed + 5000, n // 2, nnts=3, nterms=1, maxrules=7, maxrhs=3, maxlen=0, empty_bias=0.2):
+        sents = gen_sentences(g["rules"], rnd, 8, 20)
+        sents = [w for w in sents if len(w) >= 6][:5]
+        inputs = list(sents) + damaged_inputs(sents, g["alphabet"], rnd, 1)
+        inputs += [[rnd.choice(g["alphabet"]) for _ in range(rnd.randint(8, 16))] for _ in range(2)]
+        out.append(dict(g, inputs=inputs[:12], maxlen=0))
+    return out
+
+
+def nested_nullable_family(seed, n):
+    """Rules X : C N u v | w w N with N nullable and also non-empty, C of several lengths, and N deriving X again
+    (N : ... | X B z | ; B : X): instances of the first rule nest and end at the same position with different origins, so
+    the same set core (start situations without distances) is met with different distance vectors.  Terminals are assigned
+    at random; the inputs are generated sentences of 8-22 tokens and damaged copies."""
+    rnd = random.Random(seed + 9)
+    out = []
+    X, N, Bn, Cn = 11, 12, 13, 14
+    for k in range(n):
+        t = lambda: rnd.choice((1, 2))
+        rules = [R(X, [Cn, N, t(), t()]), R(X, [t(), t(), N]),
+                 R(N, [t(), t()]), R(N, [X, Bn, t()]), R(N, []),
+                 R(Bn, [X]),
+                 R(Cn, [t(), t()]), R(Cn, [t()]), R(Cn, [t(), Cn, t()])]
+        if rnd.random() < 0.5:
+            rules.append(R(Bn, []))
+        if rnd.random() < 0.3:
+            rules.insert(2, R(X, [Cn, N, N, t()]))
+        sents = gen_sentences(rules, rnd, 14, 22)
+        sents = [w for w in sents if len(w) >= 8][:8]
+        inputs = list(sents) + damaged_inputs(sents, [1, 2], rnd, 1)
+        out.append(entry("nestnull-%d-%d" % (seed, k), rules, terms=[{"n": 1, "c": 1}, {"n": 2, "c": 2}], maxlen=0, alphabet=[1, 2], inputs=inputs[:16]))
     return out
